@@ -112,9 +112,18 @@ func specFor(version, suite uint16) *tls.ClientHelloSpec {
 		CompressionMethods: []byte{0}, Extensions: exts}
 }
 
+// srvConn is what the runners need from the peer.
+type srvConn interface {
+	Read([]byte) (int, error)
+	Write([]byte) (int, error)
+	SetReadDeadline(time.Time) error
+	Close() error
+}
+
 type pair struct {
 	client     *tls.UConn
-	server     *stdtls.Conn
+	server     srvConn   // crypto/tls server, or the uTLS server below
+	userver    *tls.Conn // non-nil when the peer is the uTLS server (it then has the verif hooks too)
 	crec, srec *recConn
 	a, b       net.Conn
 }
@@ -135,18 +144,46 @@ func handshakeOver(a, b net.Conn, version, suite uint16, certs testCerts) (*pair
 	return handshakeOn(a, b, version, suite, certs, false)
 }
 
-func handshakeOn(a, b net.Conn, version, suite uint16, certs testCerts, dynOff bool) (*pair, error) {
-	p := &pair{a: a, b: b, crec: &recConn{Conn: a}, srec: &recConn{Conn: b}}
-	scfg := &stdtls.Config{Certificates: []stdtls.Certificate{certs.ecdsa, certs.rsa}, MinVersion: version, MaxVersion: version,
-		DynamicRecordSizingDisabled: dynOff}
-	if version != tls.VersionTLS13 {
-		scfg.CipherSuites = []uint16{suite}
+// handshakePairU: the peer is the server of the uTLS package itself (same record layer as crypto/tls, but
+// with the verif hooks: KeyUpdate, empty records, sequence numbers).
+func handshakePairU(version, suite uint16, certs testCerts, dynOff bool) (*pair, error) {
+	a, b, err := tcpPair()
+	if err != nil {
+		return nil, err
 	}
-	p.server = stdtls.Server(p.srec, scfg)
+	return handshakeWith(a, b, version, suite, certs, dynOff, true)
+}
+
+func handshakeOn(a, b net.Conn, version, suite uint16, certs testCerts, dynOff bool) (*pair, error) {
+	return handshakeWith(a, b, version, suite, certs, dynOff, false)
+}
+
+func handshakeWith(a, b net.Conn, version, suite uint16, certs testCerts, dynOff, utlsServer bool) (*pair, error) {
+	p := &pair{a: a, b: b, crec: &recConn{Conn: a}, srec: &recConn{Conn: b}}
+	var hsServer func() error
+	if utlsServer {
+		ucfg := &tls.Config{Certificates: []tls.Certificate{
+			{Certificate: certs.ecdsa.Certificate, PrivateKey: certs.ecdsa.PrivateKey},
+			{Certificate: certs.rsa.Certificate, PrivateKey: certs.rsa.PrivateKey}},
+			MinVersion: version, MaxVersion: version, DynamicRecordSizingDisabled: dynOff}
+		if version != tls.VersionTLS13 {
+			ucfg.CipherSuites = []uint16{suite}
+		}
+		us := tls.Server(p.srec, ucfg)
+		p.server, p.userver, hsServer = us, us, us.Handshake
+	} else {
+		scfg := &stdtls.Config{Certificates: []stdtls.Certificate{certs.ecdsa, certs.rsa}, MinVersion: version, MaxVersion: version,
+			DynamicRecordSizingDisabled: dynOff}
+		if version != tls.VersionTLS13 {
+			scfg.CipherSuites = []uint16{suite}
+		}
+		ss := stdtls.Server(p.srec, scfg)
+		p.server, hsServer = ss, ss.Handshake
+	}
 	errc := make(chan error, 1)
 	go func() {
 		b.SetDeadline(time.Now().Add(10 * time.Second))
-		errc <- p.server.Handshake()
+		errc <- hsServer()
 	}()
 	a.SetDeadline(time.Now().Add(10 * time.Second))
 	p.client = tls.UClient(p.crec, &tls.Config{InsecureSkipVerify: true, ServerName: "verif.test", DynamicRecordSizingDisabled: dynOff}, tls.HelloCustom)
